@@ -265,6 +265,7 @@ fn run_felt_mutants(ctx: &mut Ctx) {
                 ctx.case(
                     || json!({"space":"felt-mutants","program":name,"layer":layer,"positions":[chunk[0], chunk[chunk.len()-1]]}),
                     |ctx| {
+                        ctx.set_timeout_s(30);
                         let mut run = |ctx: &mut Ctx, what: serde_json::Value, v: Vec<BigUint>| {
                             let felts = if layer == "uncompressed" {
                                 let mut f = compressed[..6].to_vec();
@@ -313,6 +314,8 @@ fn run_felt_mutants(ctx: &mut Ctx) {
         ctx.case(
             || json!({"space":"short-felt-vectors","len":len}),
             |ctx| {
+                // microseconds per vector: a decoder that spins is reported after 10 s per vector
+                ctx.set_timeout_s(10);
                 let doms = vec![vals.clone(); len];
                 let mut all: Vec<Vec<BigUint>> = vec![];
                 if len == 0 {
